@@ -96,7 +96,11 @@ HandledStep == Is("handled") /\ pfs = NoFs /\ gor[TEv.w].pc # "scan" /\ UNCHANGE
 QueryOps == {"ListDevices", "GetDevice", "InjectDevices", "ListVendors", "ListClasses", "GetVendorSpecs", "Refresh"}
 OpStep ==
   /\ Is("op") /\ pfs = NoFs /\ Match(TEv.st) /\ UNCHANGED <<pend, pfs>>
-  /\ IF TEv.name \in QueryOps THEN Query ELSE UNCHANGED vars
+  /\ IF TEv.name = "Refresh" /\ ~auto
+     THEN \* an explicit Refresh() in manual mode rescans unconditionally
+          /\ ~Locked /\ idx' = (IF short.t THEN NoIdx ELSE Fresh(cdirs)) /\ obs' = idx'
+          /\ UNCHANGED <<exists, gen, files, away, cur, auto, cdirs, wstate, tracked, watches, kq, ub, infl, gor, errs, short, fsops, confs, hist>>
+     ELSE IF TEv.name \in QueryOps THEN Query ELSE UNCHANGED vars
 
 ConfiguredStep == Is("configured") /\ pfs = NoFs /\ Configure(SeqSet(TEv.dirs), TEv.auto) /\ MatchNext(TEv.st) /\ UNCHANGED <<pend, pfs>>
 
